@@ -112,6 +112,7 @@ func (g *c15Gen) pragma() c15Pragma {
 		vec("spaced-dot")
 	default:
 		sb.WriteString(g.of("temp", "TEMP") + ".")
+		vec("schema-prefix")
 		mainSchema = false
 	}
 	// name
